@@ -1155,6 +1155,118 @@ Proof.
   change (str_eqb msg msg) with (name_eqb msg msg). rewrite name_eqb_refl. reflexivity.
 Qed.
 
+(* ---------------------------------------------------------------- squash *)
+
+Section Squash.
+  Variable w : world.
+  Variable meta : N.
+  Variable msg : str.
+
+  (* the identity of [w] is kept, or the commit carries the identity that was asked for *)
+  Definition Qsq : pred := fun objs n o' =>
+    Qid w objs n o' \/ ident_of objs o' = Some (meta, msg).
+
+  Lemma Qsq_mono : Qmono Qsq.
+  Proof.
+    intros a b n o He [H|H]; [left; now apply (Qid_mono w a b)|right].
+    now apply (ident_of_mono a b).
+  Qed.
+
+  Lemma Qsq_ok : Qok Qsq.
+  Proof.
+    split; [exact Qsq_mono|].
+    intros objs n o ps tr [H|H]; [left; now apply (q_recommit _ (Qid_ok w))|right].
+    unfold ident_of in *. rewrite get_put_new. unfold subj_of.
+    destruct (get objs o) as [c|]; [|discriminate]. exact H.
+  Qed.
+
+  Lemma new_unapplied_sat : forall n o pos t,
+    tsat Qsq t -> Qsq (t_objs t) n o -> rsat Qsq (new_unapplied n o pos t).
+  Proof.
+    intros n o pos t H Ho. unfold new_unapplied. destruct (Nat.ltb _ _); [exact I|]. cbn [rsat].
+    intros m o' E. rewrite t_objs_set_updated, t_objs_set_lists.
+    change (t_updated t)
+      with (t_updated (set_lists t (t_applied t) (insert_at pos n (t_unapplied t)) (t_hidden t))) in E.
+    rewrite t_patch_up_set in E.
+    destruct (name_eqb_spec n m) as [<-|Hn]; [injection E as <-; exact Ho|now apply H].
+  Qed.
+
+  Lemma try_squash_sat : forall t ps t1 o,
+    tsat Qsq t -> try_squash t ps meta msg = Some (t1, o) ->
+    tsat Qsq t1 /\ forall n, Qsq (t_objs t1) n o.
+  Proof.
+    intros t ps t1 o T E. apply try_squash_spec in E as (b & bc & tr & _ & _ & -> & ->). split.
+    - apply (tsat_sub Qsq t); [exact Qsq_ok| |intros n o E; exact E|exact T].
+      rewrite t_objs_set_objs. apply store_extends_put.
+    - intros n. right. rewrite t_objs_set_objs. unfold ident_of. rewrite get_put_new. reflexivity.
+  Qed.
+
+  Lemma squash_finish_sat : forall newn o to_push sp t,
+    tsat Qsq t -> Qsq (t_objs t) newn o -> rsat Qsq (squash_finish newn o to_push sp t).
+  Proof.
+    intros newn o to_push sp t T Ho. unfold squash_finish. apply rsat_tbind.
+    - now apply new_unapplied_sat.
+    - intros t2 T2. apply push_patches_sat; [exact Qsq_ok|exact T2].
+  Qed.
+
+  Lemma squash_closure_sat : forall ps newn sp t,
+    tsat Qsq t -> rsat Qsq (squash_closure ps newn meta msg sp t).
+  Proof.
+    intros ps newn sp t T. unfold squash_closure.
+    destruct (try_squash t ps meta msg) as [[t1 o]|] eqn:Et.
+    - destruct (try_squash_sat _ _ _ _ T Et) as [T1 Ho].
+      pose proof (delete_sat Qsq (fun n => mem n ps) t1 T1) as T2.
+      pose proof (delete_objs (fun n => mem n ps) t1) as Eo.
+      destruct (delete_patches _ t1) as [t2 to_push]. cbn [fst] in T2, Eo.
+      apply squash_finish_sat; [exact T2|]. rewrite Eo. apply Ho.
+    - pose proof (pop_sat Qsq (fun n => mem n ps) t T) as T1.
+      destruct (pop_patches _ t) as [t1 to_push]. cbn [fst] in T1.
+      apply rsat_tbind; [apply push_patches_sat; [exact Qsq_ok|exact T1]|].
+      intros t2 T2. cbv beta.
+      destruct (try_squash t2 ps meta msg) as [[t3 o]|] eqn:Et2; [|exact I].
+      destruct (try_squash_sat _ _ _ _ T2 Et2) as [T3 Ho].
+      pose proof (delete_sat Qsq (fun n => mem n ps) t3 T3) as T4.
+      pose proof (delete_objs (fun n => mem n ps) t3) as Eo.
+      destruct (delete_patches _ t3) as [t4 extra]. cbn [fst] in T4, Eo.
+      destruct extra; [|exact I].
+      apply squash_finish_sat; [exact T4|]. rewrite Eo. apply Ho.
+  Qed.
+
+  Lemma run_squash_sat : forall r nm, Inv w -> wsat Qsq (fst (run_squash w r nm meta msg)).
+  Proof.
+    intros r nm Hi.
+    assert (Hw : wsat Qsq w) by (intros n o E; left; now apply (Qid_init w Hi)).
+    unfold run_squash.
+    destruct (parse_ranges r) as [prs|]; [|exact Hw].
+    destruct (from_str nm) as [newn|]; [|exact Hw].
+    destruct (open_stack PAllow w) as [op|] eqn:Eo; [|exact Hw].
+    pose proof (open_sat _ _ _ _ Qsq_mono Eo ltac:(discriminate) Hw) as Hw1.
+    pose proof (open_op_mir _ _ _ Eo) as Hm.
+    destruct (w_unmerged (op_world op)); [exact Hw1|].
+    destruct (negb (head_top_ok op)); [exact Hw1|].
+    match goal with |- wsat _ (fst (rres_bind _ ?r _)) =>
+      destruct r as [ps| |]; cbn [rres_bind]; [|exact Hw1|exact Hw1] end.
+    destruct (_ && _); [exact Hw1|].
+    destruct (Nat.ltb _ _); [exact Hw1|].
+    rewrite squash_exit_fst.
+    apply transact_sat; [exact Qsq_mono|exact Hm|apply frame_squash_closure|exact Hw1|].
+    intros _ T. now apply squash_closure_sat.
+  Qed.
+End Squash.
+
+Lemma squash_identity :
+  forall lower_s, LowerOK lower_s ->
+  forall w ranges nm meta msg w' x n o',
+    Inv w -> step lower_s w (CSquash ranges nm meta msg) = (w', x) -> patch_commit w' n = Some o' ->
+    (exists a o, patch_commit w a = Some o /\ ident_of (w_objs w') o' = ident_of (w_objs w) o)
+    \/ ident_of (w_objs w') o' = Some (meta, msg).
+Proof.
+  intros lower_s HL w ranges nm meta msg w' x n o' Hi E En. cbn [step] in E.
+  pose proof (run_squash_sat w meta msg ranges nm Hi) as H. rewrite E in H. cbn [fst] in H.
+  destruct (H n o' En) as [Hq|Hid]; [left|right; exact Hid].
+  apply Qid_ident in Hq as [o [H1 H2]]. exists n, o. auto.
+Qed.
+
 (* Model/Cmd.v leaves N_scope open; the statements of Properties/C08.v compare object ids
    (nat) with the length of the store. *)
 Global Open Scope nat_scope.
